@@ -590,6 +590,26 @@ def monitor_c17(sc, obs):
                 if e['level'] != stored:
                     _bad(v, 'C17/buffer-level', 'op %d (t=%d): buffer %d reports level %d, it stores %d parts (every part of a batch counts)' % (i, o['now'], d, e['level'], stored))
                     return v
+        # routing-history updates of a batch are applied to every part it contains: a batch held by a device other than a
+        # batcher (which unpacks on arrival) has that device as the last history entry of the batch and of each of its parts
+        for d, e in o['devices'].items():
+            if e['kind'] == 7:
+                # a batcher: every part it holds (unpacked or not) arrived here, alone or inside a batch
+                for slot, it in _items_in(e):
+                    hs = it['leaf_hists'] if it['batch'] else [it['hist']]
+                    for pid, lh in zip(it['leaves'] if it['batch'] else [it['id']], hs):
+                        if not lh or lh[-1] != d:
+                            _bad(v, 'C17/batch-history', 'op %d (t=%d): batcher %d holds part %d whose routing history ends with %s' % (
+                                i, o['now'], d, pid, lh[-1:] or 'nothing'))
+                            return v
+                continue
+            for slot, it in _items_in(e):
+                if it['batch'] and slot in ('part', 'out', 'buf') and it['hist'] and it['hist'][-1] == d:
+                    for pid, lh in zip(it['leaves'], it['leaf_hists']):
+                        if not lh or lh[-1] != d:
+                            _bad(v, 'C17/batch-history', 'op %d (t=%d): batch %d is held by device %d, the history of its part %d ends with %s' % (
+                                i, o['now'], it['id'], d, pid, lh[-1:] or 'nothing'))
+                            return v
         for d, e in o['devices'].items():
             if e['kind'] != 7:
                 continue
